@@ -21,6 +21,9 @@ const (
 	ExtendOptionWordCode   = 14
 	ExtendOptionWordAddend = 269
 	ExtendOptionError      = 15
+
+	// maxOptionValueLength is the longest option value the option header can describe.
+	maxOptionValueLength = ExtendOptionWordAddend + int(max2ByteNumber)
 )
 
 // OptionID identifies an option in a message.
@@ -385,6 +388,11 @@ func (o Option) Marshal(buf []byte, previousID OptionID) (int, error) {
 	   +-------------------------------+
 	*/
 	delta := int(o.ID) - int(previousID)
+
+	if len(o.Value) > maxOptionValueLength {
+		// the length would not fit into the 16-bit extended length field
+		return -1, ErrInvalidValueLength
+	}
 
 	lenBuf, err := o.MarshalValue(nil)
 	switch {
